@@ -204,6 +204,8 @@ def call_builtin(eng, name, args, kwargs, st, node):
             return [(st, V('dyntype', z=VV.tag_of(v.z)))]
         if v.k == 'dyn':
             return [(st, V('class', py=v.cls))]
+        if v.k == 'obj':
+            return [(st, V('obj', oid='type(%s)' % v.oid))]
         raise Unsupported(node, 'type of %r' % (v,))
     if name == 'hasattr':
         v, n = args
